@@ -2116,8 +2116,13 @@ impl TransactionBuilder {
                                 serialization_format: None,
                             };
 
-                            // increase fee
-                            let fee_for_change = self.fee_for_output(&change_output)?;
+                            // increase fee: the rest of the ADA is added to the last change output later,
+                            // so the output is paid for with the widest coin it can end up holding
+                            let mut widest_change_output = change_output.clone();
+                            widest_change_output
+                                .amount
+                                .set_coin(&BigNum::max(&min_ada, &change_left.coin));
+                            let fee_for_change = self.fee_for_output(&widest_change_output)?;
                             new_fee = new_fee.checked_add(&fee_for_change)?;
                             if change_left.coin() < min_ada.checked_add(&new_fee)? {
                                 return Err(JsError::from_str("Not enough ADA leftover to include non-ADA assets in a change address"));
